@@ -522,6 +522,85 @@ def g_mutate(rng, spec, n=None):
     return [{"kind": "seq", "mode": "mutate", "measure": rng.choice(MEASURES), "spec": spec, "edit": e} for e in sites]
 
 
+# ---- fault, then reuse: an operation on an object RAISES part way, the caller repairs the object and uses it again
+# where the fault is put (kinds of place in a spec) and what is put there (spellings of "a value this place cannot hold")
+FAULT_BAD = {"int": ["none", "big", "neg", "str", "obj"],            # a number is needed
+             "payload": ["int", "obj", "wide"],                        # bytes are needed
+             "zs": ["none", "wide", "long", "int"],                    # a representable string is needed
+             "addr": ["none", "short", "int"],                         # an address is needed
+             "sub": ["none", "int", "obj"],                            # a codec object is needed
+             "elem": ["none", "int", "unset", "obj"]}                  # an element of the list's kind is needed
+FAULT_OPS = ["pack", "len", "pack_twice", "pack"]                     # the call that meets the fault
+FAULT_AFTER = [["pack", "len", "unpack"], ["unpack", "len", "pack"], ["len", "pack", "unpack"], ["pack", "unpack", "pack"]]
+FAULT_AFTER_TRUNC = [["unpack", "pack", "len"], ["unpack", "len", "pack"], ["unpack", "unpack", "pack"]]   # (what a half-read object packs to is open)
+FAULT_CUTS = [["end", 1], ["end", 4], ["end", 8], ["half"], ["abs", 9], ["abs", 8], ["abs", 4], ["abs", 0], ["end", 12], ["abs", 58]]
+# elements with a field that is left unset on purpose by the constructor (the caller is to fill it in before packing)
+UNSET_ELEMS = {"actions": [{"cls": "ofp_action_output", "kw": {}}, {"cls": "ofp_action_enqueue", "kw": {}, "set": {"port": None}},
+                           {"cls": "ofp_action_dl_addr", "kw": {}}, {"cls": "ofp_action_nw_addr", "kw": {}}, {"cls": "ofp_action_vlan_vid", "kw": {}, "set": {"vlan_vid": None}}]}
+
+
+def fault_sites(spec, path=()):
+    """every place of a spec where a fault can be put and taken away again: scalar attributes, payloads, strings, addresses,
+    sub-objects (replaced as a whole, and faults inside them), element lists (a bad element first / in the middle / last,
+    and faults inside elements)"""
+    out = []; path = list(path)
+    if not isinstance(spec, dict) or "cls" not in spec or spec["cls"] == "ofp_match": return out
+    for part in ("kw", "set"):
+        for k, v in spec.get(part, {}).items():
+            if isinstance(v, bool) or k in ("load", "enable"): continue
+            if isinstance(v, int): out.append({"path": path, "via": "attr", "attr": k, "what": "int"})
+            elif isinstance(v, str) and k in ("data", "body"): out.append({"path": path, "via": "attr", "attr": k, "what": "payload"})
+            elif isinstance(v, str) and k in ZS_FIELDS: out.append({"path": path, "via": "attr", "attr": k, "what": "zs"})
+            elif isinstance(v, str) and k in ("hw_addr", "dl_addr", "dl_src", "dl_dst", "nw_addr"): out.append({"path": path, "via": "attr", "attr": k, "what": "addr"})
+            elif isinstance(v, dict) and ("cls" in v or "nx_match" in v):
+                out.append({"path": path, "via": "attr", "attr": k, "what": "sub"})
+                out += fault_sites(v, path + [k])
+            elif isinstance(v, list) and k in ("actions", "ports", "queues", "properties", "body") and (not v or (isinstance(v[0], dict) and "cls" in v[0])):
+                for i in sorted({0, len(v) // 2, len(v)}):
+                    out.append({"path": path + [k], "via": "elem", "index": i, "what": "elem", "list": k, "like": copy.deepcopy(v[0]) if v else None})
+                for i in sorted({0, len(v) - 1}):
+                    if 0 <= i < len(v): out += fault_sites(v[i], path + [k, i])
+    return out
+
+
+def g_fault(rng, spec, n=None, k0=0):
+    """fault-then-reuse cases over one spec: one per fault site (or n sampled attribute sites + every element site), the
+    spelling of the bad value, the call that meets it and the order of the calls after the repair rotating"""
+    sites = fault_sites(spec)
+    if n is not None:
+        at = [s for s in sites if s["via"] == "attr"]; el = [s for s in sites if s["via"] != "attr"]
+        if len(at) > n: at = [at[i] for i in sorted(rng.sample(range(len(at)), n))]
+        if len(el) > n: el = [el[i] for i in sorted(rng.sample(range(len(el)), n))]
+        sites = at + el
+    out = []
+    for i, s in enumerate(sites):
+        bads = FAULT_BAD[s["what"]]
+        f = dict(s); f["bad"] = bads[(i + k0) % len(bads)]
+        if f["bad"] == "unset":
+            pool = UNSET_ELEMS.get(s.get("list"))
+            if pool: f["elem"] = copy.deepcopy(pool[(i + k0) % len(pool)])
+            elif s.get("like") is not None:                       # a copy of a sibling with one of its numbers taken out
+                e = copy.deepcopy(s["like"]); nums = sorted(k for k, v in e.get("kw", {}).items() if isinstance(v, int) and not isinstance(v, bool))
+                if not nums: f["bad"] = "none"
+                else: e.setdefault("set", {})[nums[(i + k0) % len(nums)]] = None; f["elem"] = e
+            else: f["bad"] = "none"
+        f.pop("like", None); f.pop("list", None)
+        out.append({"kind": "fault", "spec": spec, "fault": f, "op": FAULT_OPS[(i + k0) % len(FAULT_OPS)], "after": FAULT_AFTER[(i + k0) % len(FAULT_AFTER)]})
+    return out
+
+
+def g_fault_trunc(rng, spec, spec0=None, cuts=None, k0=0):
+    """a buffer that ends too early offered to unpack() of an object (default-constructed, or holding another value), then
+    the whole buffer offered to the same object"""
+    out = []
+    for i, cut in enumerate(cuts or FAULT_CUTS):
+        c = {"kind": "fault", "spec": spec, "fault": {"via": "trunc", "cut": cut, "what": "trunc", "twice": (i + k0) % 3 == 2}, "op": "unpack",
+             "after": FAULT_AFTER_TRUNC[(i + k0) % len(FAULT_AFTER_TRUNC)]}
+        if spec0 is not None and (i + k0) % 2 == 0: c["spec0"] = spec0
+        out.append(c)
+    return out
+
+
 def g_mask_after_measure(rng, name, holder, measure):
     """an nx_match (on its own / in an nx_flow_mod / in an nxt_packet_in) whose entry of type `name` gets a mask after `measure`"""
     ln, _ = NXM_LEN[name]; mx = (1 << (8 * ln)) - 1
@@ -896,6 +975,7 @@ class C01(Check):
         if kind == "fm_data": return self.impl_fm_data(case)
         if kind == "reuse": return self.impl_reuse(case)
         if kind == "seq": return self.impl_seq(case)
+        if kind == "fault": return self.impl_fault(case)
         if kind == "conv": return self.impl_conv(case)
         if kind == "nxm_form": return self.impl_nxm_form(case)
         self.B.zs_bytes = case.get("zs") == "bytes"
@@ -1372,6 +1452,120 @@ class C01(Check):
         out["pack"] = fresh
         return out
 
+    def bad_value(self, f):
+        b = f["bad"]
+        if b == "unset": return self.B.build(copy.deepcopy(f["elem"]))
+        return {"none": None, "big": 1 << 80, "neg": -1, "str": "zz", "obj": object(), "int": 5, "wide": "ł€",
+                "long": "x" * 300, "short": b"\x01\x02"}[b]
+
+    def impl_fault(self, case):
+        """fault, then reuse.  Two objects live the same life — built from the same spec, the same assignments in the same
+        order — except that one of them (`o`) is also taken through an operation that RAISES while the fault is in place
+        (pack / len with a value the field cannot hold or a nested object with an unset field; unpack of a buffer that ends
+        too early).  After the repair both are packed, measured and unpacked into, in the order the case gives; every
+        result of `o` must be the result of the other (a failed operation leaves nothing behind), which in turn is
+        compared with the model's answer for an object of that value."""
+        B = self.B
+        s, f, op = case["spec"], case["fault"], case.get("op", "pack")
+        out = {"cls": s.get("cls", "?"), "steps": [], "pack": None}
+        def packed(g):
+            try: return g().hex()
+            except Exception as e: return "raise:%s" % type(e).__name__
+        try:
+            want = B.build(s); raw = B.build(s).pack()
+        except Exception as e:
+            out["skip"] = "the value does not pack: raise:%s" % type(e).__name__; return out
+        trunc = f["via"] == "trunc"
+        try:
+            if trunc:
+                s0 = case.get("spec0")
+                o, ref = ((B.build(s0), B.build(s0)) if s0 is not None else (B.cls(s["cls"])(), B.cls(s["cls"])()))
+                cut = f["cut"]; n = len(raw)
+                at = {"abs": lambda: cut[1], "end": lambda: n - cut[1], "half": lambda: n // 2}[cut[0]]()
+                at = max(0, min(n - 1, at))
+                put = lambda x: None; take = lambda x: None
+                how = "unpack() of the first %d of %d bytes" % (at, n)
+                def meet(x):
+                    for _ in range(2 if f.get("twice") else 1):
+                        try: self.unpack_into(x, raw[:at], at); r = None
+                        except Exception as e: r = type(e).__name__
+                    return r
+            else:
+                o, ref = B.build(s), B.build(s)
+                to, tr = self.live_at(o, f["path"]), self.live_at(ref, f["path"])
+                where = "/".join(map(str, f["path"])) or "the object"
+                if f["via"] == "attr":
+                    old = {id(to): getattr(to, f["attr"]), id(tr): getattr(tr, f["attr"])}
+                    put = lambda t: setattr(t, f["attr"], self.bad_value(f))
+                    take = lambda t: setattr(t, f["attr"], old[id(t)])
+                    how = "%s() with %s of %s set to %s" % (op, f["attr"], where, f["bad"])
+                else:
+                    if not isinstance(to, list): raise TypeError("not a list")
+                    put = lambda t: t.insert(f["index"], self.bad_value(f))
+                    take = lambda t: t.pop(f["index"])
+                    how = "%s() with an element (%s) at %d of %s" % (op, f["bad"], f["index"], where)
+                def meet(x):
+                    r = None
+                    for _ in range(2 if op == "pack_twice" else 1):
+                        try: (len(x) if op == "len" else x.pack())
+                        except Exception as e: r = type(e).__name__
+                    return r
+                try:
+                    put(to); put(tr)
+                except Exception as e:
+                    out["skip"] = "the library refuses the value when it is assigned: %s" % type(e).__name__; return out
+        except (AttributeError, IndexError, KeyError, TypeError) as e:
+            out["skip"] = "no such place in this object: %s" % type(e).__name__; return out
+        raised = meet(o)                                   # only `o` meets the fault
+        if not trunc: take(self.live_at(o, f["path"])); take(self.live_at(ref, f["path"]))
+        out["fault_raised"] = raised
+        what = "after %s %s and the value was put back" % (how, ("raised " + raised) if raised else "(which did not raise)")
+        if trunc: what = "after %s %s" % (how, ("raised " + raised) if raised else "(which did not raise)")
+        def life(x):
+            res = []
+            for a in case.get("after", ["pack", "len", "unpack"]):
+                if a == "pack": res.append(["pack", packed(x.pack)])
+                elif a == "len": res.append(["len", packed(lambda: len(x).to_bytes(4, "big"))])
+                else:
+                    res.append(["unpack of the whole message into the object: bytes consumed", packed(lambda: self.unpack_into(x, raw + TRAILER, len(raw)).to_bytes(4, "big"))])
+                    try: e = str(bool(x == want))
+                    except Exception as ex: e = "raise:%s" % type(ex).__name__
+                    res.append(["== with the original after that unpack", e])
+            b = packed(x.pack); res.append(["pack at the end", b])
+            return res, b
+        ro, bo = life(o); rr, br = life(ref)
+        for (w, a), (_, b) in zip(ro, rr): out["steps"].append(["%s %s" % (w, what), a, b])
+        # other instances must not notice either (class-level state left behind by the failed call)
+        out["steps"].append(["pack of another equal object built %s" % what, packed(lambda: B.build(s).pack()), raw.hex()])
+        def new():
+            r, o2 = self.do_unpack(want, raw + TRAILER, len(raw)); return r.to_bytes(4, "big") + o2.pack()
+        out["steps"].append(["unpack_new / re-pack of the message %s" % what, packed(new), (len(raw).to_bytes(4, "big") + raw).hex()])
+        out["pack"] = br if not br.startswith("raise") else None
+        # for the model: the value the two objects have now (read from the one that never met the fault), and what `o` gives
+        hist = {"pack": None if bo.startswith("raise") else bo}
+        if hist["pack"] is not None:
+            bb = bytes.fromhex(bo)
+            try: hist["len"] = len(o)
+            except Exception as e: hist["len"] = "raise:" + type(e).__name__
+            try: hist["hdr"] = self.hdr_field(o, bb)
+            except Exception as e: hist["hdr"] = "raise:" + type(e).__name__
+            try:
+                self.unpack_into(o, bb + TRAILER, len(bb))
+                hist["rec2"] = self.nx_dec_view(o) if out["cls"] in ("nx_flow_mod", "nxt_packet_in") else self.rec_for_model(o)
+            except Exception as e: hist["rec2"] = None
+        out["hist"] = hist
+        try: out["rec"] = self.rec_for_model(ref) if out["pack"] is not None else None
+        except Exception: out["rec"] = None
+        self._rec_cache[id(case)] = out["rec"]
+        return out
+
+    def oracle_fault(self, case, obs):
+        if obs.get("skip") or obs.get("pack") is None: return None
+        for i, (what, a, b) in enumerate(obs["steps"]):
+            if a != b:
+                return "a failed operation leaves something behind: %s gives %s…, an object with the same life but for the failed call gives %s…" % (what, a[:28], b[:28])
+        return None
+
     def oracle_seq(self, case, obs):
         if obs.get("pack") is None: return None
         for i, (what, a, b) in enumerate(obs["steps"]):
@@ -1528,7 +1722,7 @@ class C01(Check):
             if not isinstance(o, dict) or "frames" not in o: o = self.impl(case)
             if not isinstance(o.get("frames"), list) or o.get("rec") is None: return None
             return {"op": "fm_data", "rec": o["rec"], "data": o["pi"], "xb": o["xb"], "xp": o["xp"]}
-        if kind != "obj": return None
+        if kind not in ("obj", "fault"): return None
         cname = case["spec"]["cls"]
         rec = self._rec_cache.get(id(case), "?")
         if rec == "?":
@@ -1556,6 +1750,11 @@ class C01(Check):
             return {"pack": obs.get("pack"), "entries": obs.get("entries"), "consumed": obs.get("consumed")}
         if kind == "fm_data":
             return {"msgs": obs.get("frames")}
+        if kind == "fault":                     # what the object that met the fault gives at the end of its history
+            h = obs.get("hist") or {}
+            v = {"pack": h.get("pack")}
+            if h.get("pack") is not None: v.update(len=h.get("len"), hdr=h.get("hdr"), dec=h.get("rec2"), rest=TRAILER.hex())
+            return v
         v = {"pack": obs.get("pack")}
         if obs.get("pack") is not None:
             v["len"] = obs.get("len"); v["hdr"] = obs.get("hdr")
@@ -1587,6 +1786,7 @@ class C01(Check):
             else:
                 v["dec"] = d; v["rest"] = None
             if case.get("spec", {}).get("cls") in ("ofp_stats_reply", "ofp_stats_request"): v["body"] = resp.get("body")
+            if kind == "fault": v.pop("spec", None); v.pop("body", None)
         return v
 
     # ------------------------------------------------------------------ the property on the implementation's observables
@@ -1595,6 +1795,7 @@ class C01(Check):
         if kind == "fm_data": return self.oracle_fm_data(case, obs)
         if kind == "reuse": return self.oracle_reuse(case, obs)
         if kind == "seq": return self.oracle_seq(case, obs)
+        if kind == "fault": return self.oracle_fault(case, obs)
         if kind == "conv": return self.oracle_conv(case, obs)
         if kind == "nxm_form": return self.oracle_nxm_form(case, obs)
         if kind == "stale":
@@ -1787,6 +1988,7 @@ class C01(Check):
         if "stale" in f: return "%s:pack:stale-body" % cls
         if f.startswith("pack depends on the object's history"): return "%s:pack:depends-on-history" % cls
         if f.startswith("result depends on the object's history"): return "%s:%s:depends-on-history" % (cls, case.get("mode", "seq"))
+        if f.startswith("a failed operation leaves something behind"): return "%s:failed-%s:leaves-state" % (cls, "unpack" if case.get("fault", {}).get("via") == "trunc" else "pack")
         if f.startswith("unpack (") or f.startswith("pack differs when"): return "%s:calling-convention:%s" % (cls, f.split("(")[1].split(")")[0] if f.startswith("unpack") else "alt-forms")
         if f.startswith("pack accepts a string"): return "%s:pack:accepts-unrepresentable-string" % cls
         if f.startswith("string field"): return "%s:roundtrip:string-differs" % cls
@@ -1798,6 +2000,7 @@ class C01(Check):
         return "%s:%s" % (cls, f[:40])
 
     def nontrivial(self, case, obs):
+        if case.get("kind") == "fault": return isinstance(obs, dict) and obs.get("pack") is not None and bool(obs.get("fault_raised"))
         return isinstance(obs, dict) and obs.get("pack") is not None and len(obs["pack"]) > 16
 
     def shrink_candidates(self, case):
@@ -1985,6 +2188,20 @@ class C01(Check):
                 out.append(g_mask_after_measure(rng, name, holder, MEASURES[i % len(MEASURES)])); i += 1
         return out
 
+    def fault_cases(self, rng):
+        """fault, then reuse, for one object of every class (two of every message that carries a list): a fault at each place
+        (sampled where there are many), in every spelling; a buffer cut at ten places offered to a default-constructed object
+        and to one that holds another value"""
+        out = []
+        specs = [s for s in self.all_class_specs(rng) if s["cls"] != "ofp_match"]
+        for k in ("flow_mod", "packet_out", "features_reply", "stats_reply", "queue_get_config_reply"):
+            if k in ofgen.MESSAGE_KINDS: specs.append(ofgen.message(rng, k))
+        specs += [g_nx_message(rng, k) for k in ("nx_flow_mod", "ofp_flow_mod_table_id", "nxt_packet_in")]
+        for i, sp in enumerate(specs):
+            out += g_fault(rng, sp, 8, k0=i)
+            out += g_fault_trunc(rng, sp, perturb(rng, sp), k0=i)
+        return out
+
     def all_class_specs(self, rng):
         """one random spec per codec class / message kind"""
         out = []
@@ -2120,6 +2337,7 @@ class C01(Check):
             cases.append({"kind": "conv", "spec": spec, "offsets": [1, 8, 13]})
         cases += self.offset_cases(rng)
         cases += self.mutate_cases(rng)
+        cases += self.fault_cases(rng)
         # ofp_action_output: every reserved port, with and without max_len (max_len must survive for CONTROLLER only)
         for port in (0, 1, 0xff00, 0xfff8, 0xfff9, 0xfffa, 0xfffb, 0xfffc, 0xfffd, 0xfffe, 0xffff):
             for ml in (None, 0, 1, 128, 0xffff):
@@ -2195,6 +2413,14 @@ class C01(Check):
                 if sp["cls"] == "ofp_match": continue
                 m = rng.choice(["repack", "repack", "reunpack", "isolation", "coexist", "conv"])
                 if m == "conv": yield {"kind": "conv", "spec": sp, "offsets": [rng.randint(1, 20), rng.choice(self.STREAM_OFFSETS), rng.randint(21, 2000)]}
+                elif rng.random() < 0.35:
+                    if rng.random() < 0.3: sp = g_nx_message(rng)
+                    k0 = rng.randint(0, 59)
+                    if rng.random() < 0.6:
+                        for c in g_fault(rng, sp, 2, k0=k0): yield c
+                    else:
+                        cuts = [rng.choice(FAULT_CUTS), ["abs", rng.randint(0, 200)], ["end", rng.randint(1, 40)]]
+                        for c in g_fault_trunc(rng, sp, perturb(rng, sp), cuts=cuts, k0=k0): yield c
                 elif rng.random() < 0.4:
                     for c in g_mutate(rng, sp, 2): yield c
                 else: yield {"kind": "seq", "mode": m, "inplace": rng.random() < 0.5, "spec": sp, "spec2": perturb(rng, sp)}
